@@ -105,6 +105,7 @@ def attempt(p, fresh, before):
     bf = os.path.basename(p.buildfile)
     return {'ev': 'Attempt', 'exit': rc,
             'fresh': fresh is not None and now == fresh,
+            'diff': 'other' if fresh is None else regen.diff_class(now, fresh),
             'unchanged': now.get(bf) == before.get(bf),
             'rewrote': now.get(bf) != before.get(bf),
             'must_succeed': False,
@@ -180,6 +181,7 @@ def run_scenario(sc, modes, ck_quick):
                 bf = os.path.basename(p.buildfile)
                 events.append({'ev': 'Attempt', 'exit': rc,
                                'fresh': now == fresh,
+                               'diff': regen.diff_class(now, fresh),
                                'unchanged': now.get(bf) == before.get(bf),
                                'rewrote': now.get(bf) != before.get(bf),
                                'must_succeed': False,
